@@ -821,6 +821,38 @@ theorem wedge_roundtrip4 (a b c d : Nat) (hnd : [a, b, c, d].Nodup) (pa pb pc pd
     exact wedge_core_odd _ mark _ s hm hw (by simp only [pyramidVol, lift]; ring)
 
 
+/-- allene wedge round trip for the two orders `_wedge_map` always offers (wedge on the first substituent of either
+terminal): what `__wedge_sign` draws for label `s` is read back by `add_wedge` as `s` -/
+theorem allene_wedge_roundtrip (e : Ends) (isH : Nat → Bool) (wf : EndsWF e isH) (p1 p2 q0 q1 : V2)
+    (coord : Nat → Option V2) (h0 : coord e.n0 = some q0) (h1 : coord e.n1 = some q1) (s : Bool) (mark : Int) (hm : mark ≠ 0) :
+    (wedgeSignAllene e isH e.n0 e.n1 p1 p2 q1 (some s) = .ok mark →
+      addWedgeAllene e p1 p2 coord true e.n0 false mark = .ok (some s)) ∧
+    (wedgeSignAllene e isH e.n1 e.n0 p2 p1 q0 (some s) = .ok mark →
+      addWedgeAllene e p1 p2 coord false e.n1 false mark = .ok (some s)) := by
+  have t01 : translateAllene (some e) isH e.n0 e.n1 (some s) none = .ok s := by
+    have := translateEnds_slots e isH wf 0 1 e.n0 e.n1 (Or.inl rfl) (Or.inl rfl) rfl rfl s
+    simp only [translateAllene, pickSign, bind, Except.bind, this]
+    cases s <;> rfl
+  have t10 : translateAllene (some e) isH e.n1 e.n0 (some s) none = .ok s := by
+    have hsw : translateEnds e isH e.n1 e.n0 s = translateEnds e isH e.n0 e.n1 s := by
+      have hne : e.n1 ≠ e.n0 := Ne.symm wf.d01
+      simp [translateEnds, endsSlots, hne, bind, Except.bind, getKey]
+      cases s <;> decide
+    have := translateEnds_slots e isH wf 0 1 e.n0 e.n1 (Or.inl rfl) (Or.inl rfl) rfl rfl s
+    simp only [translateAllene, pickSign, bind, Except.bind, hsw, this]
+    cases s <;> rfl
+  obtain ⟨p1x, p1y⟩ := p1; obtain ⟨p2x, p2y⟩ := p2; obtain ⟨q0x, q0y⟩ := q0; obtain ⟨q1x, q1y⟩ := q1
+  have hne : e.n1 ≠ e.n0 := Ne.symm wf.d01
+  constructor
+  · intro hw
+    simp only [wedgeSignAllene, t01, bind, Except.bind, pure, Except.pure, Except.ok.injEq] at hw
+    simp only [addWedgeAllene, if_true, Bool.false_eq_true, if_false, h1, Except.ok.injEq]
+    exact wedge_core _ mark _ s hm hw (by simp only [alleneDot]; ring)
+  · intro hw
+    simp only [wedgeSignAllene, t10, bind, Except.bind, pure, Except.pure, Except.ok.injEq] at hw
+    simp only [addWedgeAllene, hne, if_true, Bool.false_eq_true, if_false, h0, Except.ok.injEq]
+    exact wedge_core _ mark _ s hm hw (by simp only [alleneDot]; ring)
+
 /-! ## 7. table vs geometry -/
 
 /-- the point with index `i` among four -/
